@@ -1,4 +1,46 @@
-import Walleye.Model.MoveGen
+/-
+  C11 — mate announcements are true and a mate in one is always played.
+  Status: there is no universal soundness theorem for the deeper iterations (speculative null-move
+  pruning); the whole property is decided by exploration against the Lean mate solver
+  (`mateinfo` / `matecheck` in the driver) over mate/stalemate neighbourhoods.  Proved here: the
+  arithmetic that turns a mate evaluation into the printed distance and back, for the values the
+  search assigns (`mate_distance_of_win`, `mate_distance_of_loss`), and a draw value (stalemate,
+  repetition) is never in a mate band, so it is printed as `cp 0` (`stalemate_not_mate`,
+  `draw_is_reported_as_cp`).
+-/
+import Walleye.Proofs.Reports
+import Walleye.Model.SearchChess
 namespace Walleye
-theorem C11_placeholder (c : Color) : c.opp.opp = c := Color.opp_opp c
+
+/-- side to move mates in n (n ≥ 1): the mated node is at ply 2n−1, the root sees MATE − (2n−1) and prints n -/
+theorem mate_distance_of_win (n : Int) (h1 : 1 ≤ n) (h8 : n ≤ 8) :
+    Gen.mateScore - (2 * n - 1) ≥ Gen.mateScore - Gen.mateWindow ∧
+    Int.tdiv (Gen.mateScore - (Gen.mateScore - (2 * n - 1)) + 1) 2 = n := by
+  simp only [Gen.mateScore, Gen.mateWindow]
+  refine ⟨by omega, ?_⟩
+  have : (100000 - (100000 - (2 * n - 1)) + 1 : Int) = 2 * n := by omega
+  rw [this, Int.tdiv_eq_ediv_of_nonneg (by omega)]
+  omega
+
+/-- side to move is mated in n moves: the mated node is at ply 2n, the root sees −(MATE − 2n) and prints −n -/
+theorem mate_distance_of_loss (n : Int) (h1 : 1 ≤ n) (h7 : n ≤ 7) :
+    -(Gen.mateScore - 2 * n) ≤ -Gen.mateScore + Gen.mateWindow ∧
+    Int.tdiv (Gen.mateScore + -(Gen.mateScore - 2 * n)) (-2) = -n := by
+  simp only [Gen.mateScore, Gen.mateWindow]
+  refine ⟨by omega, ?_⟩
+  have : (100000 + -(100000 - 2 * n) : Int) = 2 * n := by omega
+  rw [this, Int.tdiv_neg, Int.tdiv_eq_ediv_of_nonneg (by omega)]
+  omega
+
+/-- a draw score (stalemate, repetition) is never printed as a mate -/
+theorem stalemate_not_mate : ¬ ((0 : Int) ≥ Gen.mateScore - Gen.mateWindow) ∧ ¬ ((0 : Int) ≤ -Gen.mateScore + Gen.mateWindow) := by
+  simp only [Gen.mateScore, Gen.mateWindow]; omega
+
+/-- so the info line of an accepted evaluation 0 is a `cp 0` line -/
+theorem draw_is_reported_as_cp (i : Info) (h : i.eval = 0) :
+    infoText i = s!"info pv{String.join (i.pv.map fun m => " " ++ mvText m)} depth {i.depth} nodes {i.nodes} score " ++ s!"cp {i.eval}" := by
+  unfold infoText
+  have := stalemate_not_mate
+  simp only [h, this.1, this.2, if_false]
+
 end Walleye
